@@ -63,6 +63,9 @@ def run(ctx):
                                timeout=120 if ctx.quick else 900)
     for topo, spec, num, depth in sc['conf']:
         eng.conformance(topo, spec, num, depth, judgekw=dict(c03=True, lazy=True), check_c03=True)
+    eng.cover(topos.with_required(topos.chain2(maxseq=1)), 'SpecPrompt')
+    if not ctx.quick:
+        eng.cover(topos.with_required(topos.chain3(maxseq=1)), 'SpecPrompt', max_paths=5000)
     for topo, n, steps in sc['rand']:
         eng.random_runs(topo, n, steps, p_timeout=0.0, judgekw=JK, tag='prompt', pipekw=dict(local_clocks=False), validate=2 if ctx.quick else 20)
     return rep.finish()
